@@ -21,22 +21,27 @@ PROP = {
     "assumptions": ["data accesses that wrap around 2^64 and CONSTRAINED UNPREDICTABLE register coincidences are outside the comparison (a64step = Undef)",
                     "instruction address + 4 < 2^64"],
     "partial": [
-        "theorem [U] + syntactic tie per enumerated word: ADD/SUB and ADDS immediate (incl. MOV to/from SP); ADD/SUB and ADDS shifted register LSL/LSR; "
-        "MOV register (ORR alias); MOV wide / inverted wide (MOVZ/MOVN aliases); every single-register load/store LDR/LDRB/LDRH/LDRSB/LDRSH/LDRSW/STR/STRB/STRH "
-        "in all addressing modes (unsigned offset, unscaled, pre-index, post-index, register offset with UXTW/LSL/SXTW/SXTX); LDAR/LDLAR/STLR/STLLR(+B/H); "
-        "LDP/STP/LDNP/STNP (32/64-bit) and LDPSW in all modes; B, BL, BR, BLR, RET, B.cond, CBZ/CBNZ, TBZ/TBNZ",
-        "partial theorem [U] (sim_c true: everything but C agrees, and c = NOT C is proved) + refutation witness subs_carry_refuted: SUBS immediate, SUBS shifted register LSL/LSR",
-        "syntactic tie (mirror = dumped IL) + sampled-state comparison only, no theorem: add/sub/adds/subs with ASR/ROR shifted-register operands; "
-        "add/sub/adds/subs extended register (all eight extends)",
-        "accepted by the lifter, outside the listed integer classes, neither theorem nor comparison: SIMD&FP register loads/stores (ldr/str b/h/s/d/q), NOP, PRFM, STLUR* ",
-        "known finding kf:subs-carry-is-borrow: every accepted SUBS sets c = 'a borrow occurred' (Arm ARM: C = NOT borrow); fixing it needs the unedited test subs_xn to change",
-        "the decoder's field ranges (0 <= rn < 32, option<1> = 1, ...) are hypotheses of the theorems; Isa/A64.decode produces them by construction (bits = mod) but this is not proved",
+        "theorem [U] + syntactic tie per enumerated word (c03_end_to_end: decode w = Some i /\\ tie => run of the DUMPED IL = a64step, all states; field "
+        "ranges discharged by decode_fields): ADD/SUB/ADDS in the immediate, shifted-register (LSL LSR ASR ROR) and extended-register (UXTB..SXTX, #0..4) "
+        "forms incl. MOV to/from SP; MOV register (ORR alias); MOV wide / inverted wide (MOVZ/MOVN aliases); every single-register load/store "
+        "LDR/LDRB/LDRH/LDRSB/LDRSH/LDRSW/STR/STRB/STRH in all addressing modes (unsigned offset, unscaled, pre-index, post-index, register offset "
+        "UXTW/LSL/SXTW/SXTX); LDAR/LDLAR/STLR/STLLR(+B/H); LDP/STP/LDNP/STNP (32/64-bit) and LDPSW in all modes; B, BL, BR, BLR, RET, B.cond, "
+        "CBZ/CBNZ, TBZ/TBNZ",
+        "partial theorem [U] (sim_c true: everything but C agrees, and c = NOT C is proved) + refutation witness subs_carry_refuted: SUBS in all three "
+        "operand forms (known finding kf:subs-carry-is-borrow; fixing it needs the unedited test subs_xn to change)",
+        "forms the lifter rejects hold vacuously (sim_rejected): CMP/CMN/NEG/NEGS aliases, MOVK, non-alias MOVZ/MOVN/ORR, LDR/LDRSW literal",
+        "accepted by the lifter but outside the property's integer classes and outside Isa/A64.decode, neither theorem nor comparison: SIMD&FP register "
+        "loads/stores (ldr/str b/h/s/d/q), NOP, PRFM, STLUR*, LDAPR-class; the harness tags them cov:accepted-outside-the-listed-classes",
+        "not compared by design (a64step = Undef): CONSTRAINED UNPREDICTABLE register coincidences (write-back with base = transfer register, ldp t = t2), "
+        "accesses wrapping around 2^64; the hypotheses wf / emb / mapped / addr + 4 < 2^64 of sim",
     ],
-    "level_text": "Unbounded Coq theorems (27 in Props/C03.v; all register/immediate fields, all addresses, all states) for the instruction forms listed first under partial: running the Gallina mirror of the "
+    "level_text": "36 unbounded Coq theorems (Props/C03.v), closed under the global context: for EVERY word the specification's decoder accepts "
+                  "(all listed classes, all register/immediate/shift/extend/addressing-mode fields) and every state, running the Gallina mirror of the "
                   "AArch64 builders in the reference IL semantics yields the X0-X30/SP, NZCV, memory and next pc of a Gallina transcription of the Arm ARM "
-                  "pseudocode; a kernel-evaluated syntactic tie (mirror(decoded word) = IL dumped by the real translate_block) transfers them to every enumerated "
-                  "encoding. The remaining listed forms (ASR/ROR and extended-register operands of add/sub, and the C flag of SUBS - a known finding) are covered by the same tie plus an in-kernel comparison of "
-                  "the dumped IL against the specification on sampled boundary states.",
+                  "pseudocode (sim_all; SUBS only up to the inverted carry, a known finding with a refutation witness); decode_fields discharges the "
+                  "field ranges and c03_end_to_end transfers the result to the IL dumped by the real translate_block for every enumerated word whose "
+                  "kernel-evaluated syntactic tie (mirror(decoded word) = dumped IL) holds. Independently every enumerated word is compared in the kernel "
+                  "against the specification on sampled boundary states.",
     "level_note": "Trusted: Coq kernel + vm_compute; the transcription of the Arm ARM (Isa/A64.v); Exec/Sem.v; the harness printer. The decoder bad64 is not trusted "
                   "beyond the enumerated words: its operand presentation is re-checked against the mirror on every run.",
 }
